@@ -337,6 +337,33 @@ Definition extract_path (sp : spec) (ws : list (str * wseg)) : res xerr (list fv
   do vars <- bind_vars ws;
   http_extract_path_params sp (to_btree vars).
 
+(* ---- f32 / f64 (outside the [sty] universe): a struct { v: f32 } / { v: f64 } ----
+
+   from_map.rs de_value!(f32) / de_value!(f64): [as_value()?.parse::<f32>()];
+   serde_urlencoded: forward_parsed_value!(f32 => deserialize_f32, f64 => ..):
+   [self.0.parse::<f32>()].  The value is the bit pattern. *)
+Definition float_fmt (double : bool) : fmt := if double then binary64 else binary32.
+
+Definition extract_path_float (double : bool) (rawseg : str) : res xerr N :=
+  do s <- decode_segment rawseg;
+  match parse_float (float_fmt double) s with
+  | Some bits => Ok bits
+  | None => Err (XBadPath MParse)
+  end.
+
+(* the query struct { v: T }: the derived visit_map for one field *)
+Definition extract_query_float (double : bool) (name : str) (query : option str) : res xerr N :=
+  let q := match query with Some q => q | None => [] end in
+  match filter (fun kv => str_eqb (fst kv) name) (form_parse q) with
+  | [] => Err (XBadQuery (MMissing name))
+  | [(_, s)] =>
+      match parse_float (float_fmt double) s with
+      | Some bits => Ok bits
+      | None => Err (XBadQuery MParse)
+      end
+  | _ :: _ :: _ => Err (XBadQuery (MDuplicate name))
+  end.
+
 (* ------------------------------- serde_urlencoded (query strings, form bodies) *)
 
 Definition is_128 (t : sty) : bool :=
